@@ -375,4 +375,33 @@ example : decodeMessage none (Comps.toParams (MComps.cs ex4)) [0x22, 0x01, 0xAA,
     (by simp [Comps.namesOk, ex4, MComps.cs, mc, Comp.name, Param.name, Comp.ofObjConst, Obj.toConstParam, Comp.ofValue])
     ⟨rfl, trivial⟩ rfl _ (by decide +kernel) (Except.eq_ok_of_toOption (by decide +kernel))
 
+/-! a MULTIPLEXER whose selected case ends with a terminated MIN-MAX parameter inherits the flag:
+    request [sid; m : MULTIPLEXER (key u8 at byte 0, case "txt" 2..3 { t : MIN-MAX, terminated } at byte 1); y] → 22 | 02 | AA BB 00 | 77 -/
+def ex5Case : List MComp := [{ c := Comp.ofMinMaxMid ex2S, mid := true }]
+def ex5Mux : MuxLayout :=
+  { muxBp := 1, swBp := 0, key := ⟨"", none, none, none, true, 8, .uint32⟩,
+    cases := [.mk "txt" 2 3 (some (.struct none (Comps.toParams (MComps.cs ex5Case))))], dflt := none, caseName := "txt", lo := 2 }
+def ex5 : List MComp :=
+  [mc (Comp.ofObjConst ⟨"sid", none, none, none, true, 8, .uint32⟩ (.int 0x22) false),
+   { c := Comp.ofValue "m" none (DComp.mux ex5Mux (DComp.struct (MComps.cs ex5Case))), mid := true }, mc (u8 "y" 0x77)]
+example : (encodeMessage none (Comps.toParams (MComps.cs ex5)) (.dict (Comps.values (MComps.cs ex5))) none true).toOption
+    = some ([0x22, 0x02, 0xAA, 0xBB, 0x00, 0x77], 0) := by decide +kernel
+theorem ex5_described : ∀ m ∈ ex5, DescribedTop none m.c m.mid := by
+  intro m hm
+  simp only [ex5, List.mem_cons, List.mem_nil_iff, or_false] at hm
+  rcases hm with rfl | rfl | rfl
+  · exact DescribedTop.nested _ _ (Described2.const _ _ _ (by simp [Obj.ok, Obj.encOk, Obj.sizeOk]) (by simp [Obj.inRange]))
+  · refine DescribedTop.nested _ _ (Described2.mux "m" none ex5Mux ex5Case (mem1 _ (Described2.minmaxMid ex2S ex2S_ok))
+      (namesOk1 _) trivial ⟨?_, ?_, ?_⟩)
+    · simp [ex5Mux, MuxLayout.keyObj, Obj.ok, Obj.encOk, Obj.sizeOk]
+    · simp [ex5Mux, MuxLayout.keyObj, Obj.inRange]
+    · exact MuxLayout.sel_of_case ex5Mux _ [] [] 3 rfl (by decide) rfl rfl
+  · exact DescribedTop.nested _ _ (described2_byte "y" none 0x77 (by decide) (by decide))
+example : decodeMessage none (Comps.toParams (MComps.cs ex5)) [0x22, 0x02, 0xAA, 0xBB, 0x00, 0x77] true
+    = .ok (.dict (Comps.pair (MComps.cs ex5)).val, 6) :=
+  C01_roundtrip_nested2_whole ex5 none ex5_described (by decide)
+    (by simp [Comps.namesOk, ex5, MComps.cs, mc, Comp.name, Param.name, Comp.ofObjConst, Obj.toConstParam, Comp.ofValue, u8,
+      Comp.ofObjValue, Obj.toParam])
+    ⟨rfl, rfl, trivial⟩ rfl _ (by decide +kernel) (Except.eq_ok_of_toOption (by decide +kernel))
+
 end OdxVerif.Codec
